@@ -112,6 +112,7 @@ def make_cases(ctx):
         ("missing-path-file", base, [], ["magic-numbers"], ["src/nope.py"]),
         ("missing-path-among", base, [], ["srp"], ["src", "no_such_dir"]),
         ("missing-config", base, [], ["nesting", "--config", "nope.yaml"], ["."]),
+        ("missing-config-group", base, ["--config", "nope.yaml"], ["nesting"], ["."]),
         ("malformed-yaml", bad_yaml, [], ["nesting"], ["."]),
         ("malformed-json", bad_json, [], ["nesting"], ["."]),
         ("malformed-yaml-explicit", dict(base, **{"bad.yaml": "a: [1,\n"}), [], ["magic-numbers", "--config", "bad.yaml"], ["."]),
